@@ -392,9 +392,12 @@ class Ctx:
             elif k == "done":
                 done = True
                 self.traces += int(r.get("n", 0))
+        # a harness that crashed or was killed gives no verdict, whatever records it managed to write before;
+        # only *unlisted* violations (which already decide exit 1) excuse a missing done record
+        unlisted = len(self.violations) > 0
         if gr.rc != 0 and not gr.by_kind("violation"):
             raise Infra("harness %s failed without a verdict (rc=%s):\n%s" % (label, gr.rc, gr.out[-4000:]))
-        if require_done and not done and not gr.by_kind("violation"):
+        if require_done and not done and not unlisted:
             raise Infra("harness %s did not finish (no done record):\n%s" % (label, gr.out[-3000:]))
 
     # ------------------------------------------------------- verdict pieces
